@@ -25,7 +25,8 @@ RULE = ('seeded (poll, ping_rate, ping_timeout, close_timeout) drawn from '
 SHRINK_LISTS = [('data',)]
 EXPECTED_PROBES = ['unresponsive_seen', 'close_timeout_fired', 'ping_rate_zero',
                    'late_pong', 'close_timeout_disabled', 'ping_lt_poll',
-                   'graceful_end', 'jitter', 'data_wakeups', 'ping_windows_checked']
+                   'graceful_end', 'jitter', 'data_wakeups', 'ping_windows_checked',
+                   'trickled_frame']
 
 EPS = 2e-5      # float rounding at a 1.7e9 epoch (2^-22 s) with margin
 
@@ -72,6 +73,12 @@ def make_case(family, i, rng, tier):
     nd = rng.choice([0, 0, 1, 3, 10])
     case['data'] = sorted(round(rng.uniform(0, horizon * 0.8), 3)
                           for _ in range(nd))
+    if rng.random() < 0.15:
+        # a long frame dribbling in byte by byte, faster than the poll
+        # interval: every wake-up is a partial read that completes nothing
+        case['trickle'] = {'at': round(rng.uniform(0, horizon * 0.2), 3),
+                           'every': p * rng.choice([0.5, 0.3, 0.9]),
+                           'bytes': rng.choice([30, 60])}
     # handshake delay
     case['reply_delay'] = rng.choice([0, 0, int(p * 1.5e6), 700000])
     # closing
@@ -99,6 +106,15 @@ def build(case):
     timeline = []
     for k, d in enumerate(case.get('data') or []):
         timeline.append((d, peer.enc_frame(1, b'data%d' % k)))
+    tr_ = case.get('trickle')
+    if tr_:
+        blob = peer.enc_frame(2, b't' * tr_['bytes'])
+        for j in range(len(blob)):
+            timeline.append((tr_['at'] + j * tr_['every'], blob[j:j + 1]))
+        # complete frames must not be cut by the trickle: keep other data out
+        timeline = [x for x in timeline if len(x[1]) == 1 or
+                    not (tr_['at'] <= x[0] <= tr_['at'] + len(blob) *
+                         tr_['every'])]
     if case.get('close_mode') == 'server_close':
         timeline.append((case['server_close_at'],
                          peer.enc_frame(8, peer.enc_close_payload(1000, 'srv'))))
@@ -141,8 +157,14 @@ def build(case):
           'connect': {'poll': p, 'ping_rate': case['ping_rate'],
                       'ping_timeout': case['ping_timeout'],
                       'close_timeout': case['close_timeout']},
-          'conns': [conn], 'app': app, 'max_polls': 200000,
-          'max_events': 200000}
+          'conns': [conn], 'app': app}
+    # generous but finite: a legitimate run wakes up about once per poll
+    # interval plus once per arrival; a timer storm must end as a reported
+    # hang quickly, not after minutes
+    total_s = H + 3 * (case.get('close_timeout') or 0) + 10 * p + 5
+    budget = 5000 + int(30 * total_s / p)
+    sc['max_polls'] = budget
+    sc['max_events'] = budget
     if case.get('latency'):
         sc['wake_latency'] = {'*': case['latency']}
     return sc
@@ -329,6 +351,8 @@ def execute(case):
                                                        eofs))
     if case.get('data'):
         res.stats['probe:data_wakeups'] += 1
+    if case.get('trickle'):
+        res.stats['probe:trickled_frame'] += 1
     res.nontrivial = len(polls) >= 3
     res.sig = '%s|%s|%s|%s|%s|%s|%s|%s' % (
         p, r, t, c, case.get('close_mode'), case.get('close_reply'),
